@@ -111,6 +111,7 @@ class Scheduler(object):
         self.abstract = None            # optional harness callback for fingerprints
         self.n_points = 0
         self.waitfor = []
+        self.lh = 0                     # incremental hash of thread locations
 
     # ------------------------------------------------------------------ helpers
     def new_serial(self):
@@ -190,11 +191,24 @@ class Scheduler(object):
                 st = "blocked"
             on = t.on
             ondesc = None
+            on_kind = None
+            on_owner = None
             if on is not None:
                 ondesc = getattr(on, "desc", None)
                 ondesc = ondesc() if callable(ondesc) else repr(on)
+                if isinstance(on, LT):
+                    on_kind = "join"
+                    on_owner = on.name
+                elif isinstance(on, (Lock, RLock)):
+                    on_kind = "lock"
+                    o = on._owner
+                    on_owner = o.name if isinstance(o, LT) else None
+                    ondesc = "%s@%s" % (type(on).__name__, on._site)
+                else:
+                    on_kind = "other"
             out.append(dict(idx=t.idx, name=t.name, client=t.client, state=st, kind=t.kind,
-                            loc=t.loc, on=ondesc, deadline=t.deadline, started=t.started,
+                            loc=t.loc, on=ondesc, on_kind=on_kind, on_owner=on_owner,
+                            deadline=t.deadline, started=t.started,
                             died=t.exc[0] if t.exc else None))
         return out
 
@@ -235,15 +249,24 @@ class Scheduler(object):
             enabled = []
             clock = self.clock
             if self.order == "rr":
-                seq = [threads[(start + k) % n] for k in range(n)]
+                k = start
+                for _ in range(n):
+                    t = threads[k]
+                    k += 1
+                    if k == n:
+                        k = 0
+                    if t.finished:
+                        continue
+                    p = t.pred
+                    if p is None or p() or (t.deadline is not None and clock >= t.deadline):
+                        enabled.append(t)
             else:  # 'desc': current first, then the others by descending creation index
-                seq = [cur] + [t for t in reversed(threads) if t is not cur]
-            for t in seq:
-                if t.finished:
-                    continue
-                p = t.pred
-                if p is None or p() or (t.deadline is not None and clock >= t.deadline):
-                    enabled.append(t)
+                for t in [cur] + [t for t in reversed(threads) if t is not cur]:
+                    if t.finished:
+                        continue
+                    p = t.pred
+                    if p is None or p() or (t.deadline is not None and clock >= t.deadline):
+                        enabled.append(t)
             if enabled:
                 break
             dl = [t.deadline for t in threads if not t.finished and t.deadline is not None]
@@ -276,9 +299,7 @@ class Scheduler(object):
     def _choose(self, n, running_enabled, cur):
         i = len(self.trace)
         # state fingerprint (reporting only)
-        fp = self.xh
-        for t in self.threads:
-            fp = (fp * 1000003) ^ hash((t.finished, t.pred is None, t.loc))
+        fp = self.xh ^ self.lh
         if self.abstract is not None:
             fp = (fp * 1000003) ^ hash(self.abstract())
         self.fps.add(fp & 0xFFFFFFFFFFFF)
@@ -313,8 +334,12 @@ class Scheduler(object):
         lt.deadline = deadline
         lt.on = on
         lt.kind = kind
-        if loc is not None:
+        if loc is None:
+            loc = kind
+        old = lt.loc
+        if old is not loc:
             lt.loc = loc
+            self.lh ^= hash((lt.idx, old)) ^ hash((lt.idx, loc))
         self.steps += 1
         if self.steps > self.step_cap:
             self._end("livelock", lt)
@@ -460,11 +485,14 @@ class _Prim(object):
 
 
 def _site_of(depth=2):
+    """Creation site of a primitive, robust to unrelated edits: module:qualname+line offset
+    inside the creating function."""
     f = sys._getframe(depth)
     for _ in range(6):
         fn = f.f_code.co_filename
         if "more_executors" in fn or "concurrent" in fn or "/checks/" in fn or "kit" in fn:
-            return "%s:%d" % (fn.rsplit("/", 1)[-1], f.f_lineno)
+            return "%s:%s+%d" % (fn.rsplit("/", 1)[-1][:-3], f.f_code.co_qualname,
+                                 f.f_lineno - f.f_code.co_firstlineno)
         if f.f_back is None:
             break
         f = f.f_back
